@@ -62,7 +62,7 @@ type Case struct {
 
 var byteKinds = []string{"bitflip", "delete", "insert-00", "insert-ff", "insert-copy", "subst-00", "subst-ff", "subst-not"}
 var fieldKinds = []string{"rewrite", "remove", "add-unknown"}
-var sigKinds = []string{"issuer-signs-header-insert", "issuer-signs-header-insert", "issuer-signs-header-delete", "issuer-signs-header-subst", "issuer-signs-header-dup-segment", "issuer-signs-foreign-header", "issuer-signs-garbled-header", "issuer-signs-empty-header", "issuer-signs-extended-header", "resign-other-same-alg", "resign-other-alg", "resign-signer-header", "borrow-signature", "header-other-alg", "header-garbled", "header-empty", "sig-truncate", "sig-empty", "sig-extend", "sig-zero"}
+var sigKinds = []string{"resign-by-prefix-twin", "issuer-signs-header-insert", "issuer-signs-header-insert", "issuer-signs-header-delete", "issuer-signs-header-subst", "issuer-signs-header-dup-segment", "issuer-signs-foreign-header", "issuer-signs-garbled-header", "issuer-signs-empty-header", "issuer-signs-extended-header", "resign-other-same-alg", "resign-other-alg", "resign-signer-header", "borrow-signature", "header-other-alg", "header-garbled", "header-empty", "sig-truncate", "sig-empty", "sig-extend", "sig-zero"}
 
 var dlgFields = []string{"iss", "aud", "sub", "cmd", "pol", "nonce", "meta", "nbf", "exp"}
 var invFields = []string{"iss", "aud", "sub", "cmd", "args", "prf", "nonce", "meta", "exp", "iat", "cause"}
@@ -215,6 +215,25 @@ func corrupt(cs Case, sealed []byte) (out []byte, oldSig bool, ok bool) {
 		}
 		b, err := env.Assemble(e.Sig, env.SigPayloadNode(e.Header, e.Tag, np.Node()))
 		return b, true, err == nil
+	case "resign-by-prefix-twin":
+		// the issuer field names RSA key 0, the signature is made by its prefix twin (keys.RSATwinIdx), after an
+		// honest token of the twin has been decoded in this process
+		victim, twin := keys.Get(keys.RSA, 0), keys.Get(keys.RSA, keys.RSATwinIdx)
+		setIss := func(d string) val.V {
+			np := val.V{K: "map"}
+			for _, kv := range payload.M {
+				if kv.K == "iss" {
+					kv.V = val.Str(d)
+				}
+				np.M = append(np.M, kv)
+			}
+			return np
+		}
+		if hb, err := env.Seal(twin.Priv, env.SigPayloadNode(env.HeaderFor(twin.Priv.Type()), e.Tag, setIss(twin.DID.String()).Node())); err == nil {
+			_, _, _ = token.FromSealed(hb)
+		}
+		b, err := env.Seal(twin.Priv, env.SigPayloadNode(env.HeaderFor(twin.Priv.Type()), e.Tag, setIss(victim.DID.String()).Node()))
+		return b, false, err == nil
 	case "resign-other-same-alg", "resign-other-alg":
 		k := otherKey(iss, c.Kind == "resign-other-same-alg", c.Alt).Key()
 		b, err := env.Seal(k.Priv, e.SigPayload) // header still announces the issuer's type
